@@ -51,6 +51,8 @@ func runC12(w *World, r *Report) {
 	checkWiring(w, r, "C12/WIRING", map[string]bool{"DisableHooks": true})
 	checkCarried(w, r, "C12/WIRING", []string{"DisableHooks"})
 	checkFlagBinding(w, r, "C12/WIRING", map[string]bool{"DisableHooks": true})
+	r.Rule("C12/NO-ALIASING", "the hooks selected for an event are collected into a fresh list: the release's own hook list is never filtered in place", 1)
+	checkInPlaceFilters(w, r, "C12/NO-ALIASING", []string{"pkg/action", "pkg/release/util"})
 }
 
 func c12FindExecHook(w *World) *ssa.Function {
